@@ -377,7 +377,11 @@ func parentMain() {
 				Env: []string{"TZ=" + z, datesEnv + "=" + df.Name()}, MemKB: 6 << 20}, sink)
 		}(zi, z)
 	}
+	// two requests at a time (pairs.go), while the worker pools run
+	pairDone := make(chan struct{})
+	go func() { defer close(pairDone); pairPass(r, p, counters, &mu) }()
 	pool.Wait()
+	<-pairDone
 	for _, e := range poolErr {
 		if e != nil {
 			ev.Fatal("%v", e)
